@@ -1,6 +1,6 @@
 (* C08 - the option parser assigns exactly what the command line says and nothing else.
    Statements only, each closed by `exact`, followed by Print Assumptions. *)
-From LV Require Import Base.Buf Gen.OptGen Opt.OptModel Opt.OptSafe.
+From LV Require Import Base.Buf Gen.OptGen Opt.OptModel Opt.OptSafe Opt.OptRound.
 Local Open Scope Z_scope.
 
 (* the generator found every anchor it derives the constants of the model from *)
@@ -24,6 +24,14 @@ Theorem C08_parse_total_safe : forall e n sto bad,
 Proof. exact parse_total_safe. Qed.
 Print Assumptions C08_parse_total_safe.
 
+(* the fuel is not magic: any fuel >= parse_fuel gives Ok (in particular never Out_of_fuel) *)
+Theorem C08_parse_total_safe_fuel : forall fuel e n sto bad,
+  (parse_fuel (e_strs e) <= fuel)%nat ->
+  length (e_strs e) = e_argc e -> wf_table n (e_tbl e) -> wf_store n sto -> 0 <= bad < 256 ->
+  exists out, parse_with fuel e (init_st (e_argc e) sto bad) = Ok out.
+Proof. exact parse_total_safe_fuel. Qed.
+Print Assumptions C08_parse_total_safe_fuel.
+
 (* bool_mask_only, whole parse: a bit of a boolean target outside the masks of the boolean options
    aimed at it, and every integer / string / list target no option of that kind is aimed at, keep
    their values whatever the command line is; abstract handler calls are only appended *)
@@ -45,3 +53,99 @@ Theorem C08_handle_boolean_exact : forall e o sto val islong sto' r k,
               sb sto' = upd (sb sto) k (Z.land v (Z.lnot (o_mask o mod mask_modulus))))).
 Proof. exact handle_boolean_exact. Qed.
 Print Assumptions C08_handle_boolean_exact.
+
+(* parse_round_trip.  Every table (value pointers into the pools, boolean options with one, long
+   names that are C strings without '='), every spelling list that meets the side conditions sps_ok
+   (letters other than NUL and '-', names without '=', no NUL inside an argument, option kinds that
+   fit the spelling, values of abstract options that do not start with '-', no boolean word right
+   after --flag, boolean words where a boolean gets a value, an argument list that takes the rest of
+   the line only as the last spelling, words that do not start with '-' unless they are the lone
+   "-"), every program name, all four {preparse, remove_args} settings, every limit and handler:
+   the parser returns normally, the targets are exactly the ideal reading (last occurrence wins,
+   booleans set/clear their mask bits, options of the other pass left alone), no bad option is
+   counted, the help handler is not called, and argv afterwards is prog :: words ++ NULL when
+   argument removal is in effect and untouched otherwise. *)
+Theorem C08_parse_round_trip : forall tbl pre rm allow ret prog sps sto bad n,
+  wf_table n tbl -> names_ok tbl = true -> wf_store n sto -> nz_word prog = true -> sps_ok tbl sps = true ->
+  let strs := prog :: render sps in
+  let e := mkenv tbl strs (length strs) pre rm allow ret in
+  exists s', parse e (init_st (length strs) sto bad) = Ok (Done (pre && (length strs <=? 1)%nat) s') /\
+             st_sto s' = fst (ideal pre tbl sps sto) /\
+             st_bad s' = bad /\ st_helps s' = O /\ st_nbad s' = O /\
+             (if negb pre && rm
+              then argv_words strs (st_argv s') = prog :: snd (ideal pre tbl sps sto)
+              else st_argv s' = init_argv (length strs)).
+Proof. exact OptRound.parse_round_trip. Qed.
+Print Assumptions C08_parse_round_trip.
+
+(* the usual client sequence (pre-parse pass, then normal pass) reads both passes' options and
+   compacts argv once *)
+Theorem C08_parse_twice_round_trip : forall tbl rm allow ret prog sps sto bad n,
+  wf_table n tbl -> names_ok tbl = true -> wf_store n sto -> nz_word prog = true -> sps_ok tbl sps = true ->
+  sps <> [] ->
+  let strs := prog :: render sps in
+  let e := mkenv tbl strs (length strs) true rm allow ret in
+  let sto1 := fst (ideal true tbl sps sto) in
+  exists s', parse_twice e (init_st (length strs) sto bad) = Ok (Done false s') /\
+             st_sto s' = fst (ideal false tbl sps sto1) /\
+             st_bad s' = bad /\ st_helps s' = O /\ st_nbad s' = O /\
+             (if rm then argv_words strs (st_argv s') = prog :: snd (ideal false tbl sps sto1)
+              else st_argv s' = init_argv (length strs)).
+Proof. exact OptRound.parse_twice_round_trip. Qed.
+Print Assumptions C08_parse_twice_round_trip.
+
+(* ---- non-vacuity: concrete tables, stores and command lines meet the hypotheses, the model runs ---- *)
+Definition ex_tbl : list opt :=
+  [ mkopt 97 [97; 108; 112; 104; 97] flag_boolean (Some 0%nat) 1;                       (* -a --alpha   bool 0x01 *)
+    mkopt 98 [98; 101; 116; 97] (flag_boolean + flag_preparse) (Some 0%nat) 2;          (* -b --beta    bool 0x02, pre-parsed *)
+    mkopt 105 [105; 110; 116] flag_integer (Some 0%nat) 0;                              (* -i --int *)
+    mkopt 115 [115; 116; 114] flag_string (Some 1%nat) 0;                               (* -s --str *)
+    mkopt 108 [108; 105; 115; 116] flag_arglist (Some 0%nat) 0;                         (* -l --list *)
+    mkopt 116 [116; 104; 101; 109; 101] flag_abstract (Some 2%nat) 0;                   (* -t --theme *)
+    mkopt 99 [99; 110; 116] flag_counter (Some 0%nat) 0 ].                              (* -c --cnt *)
+Definition ex_sto : store :=
+  mkstore [18446744073709551615; 0] [7; 7] [None; None] [None; None] [].
+Definition ex_sps : list spelling :=
+  [ Bundle [97; 99; 98]; Word [119]; LongEq [105; 110; 116] [45; 53]; ShortSep 115 [118];
+    BoolWord [65; 76; 80; 72; 65] [110; 111]; Word [45]; ShortAttached 116 [120];
+    ArgListRest (ByShort 108) [[45; 97]; [122]] ].
+
+Example C08_ex_hyps :
+  wf_table 3 ex_tbl /\ names_ok ex_tbl = true /\ wf_store 2 ex_sto /\ sps_ok ex_tbl ex_sps = true.
+Proof.
+  split; [|split; [reflexivity|split; [repeat split|reflexivity]]].
+  split.
+  - intros o k Hin Hk. repeat (destruct Hin as [<-|Hin]; [inversion Hk; subst; auto with arith|]). destruct Hin.
+  - intros o Hin Hb. repeat (destruct Hin as [<-|Hin]; [discriminate|]). destruct Hin.
+Qed.
+
+(* prog -acb w --int=-5 -s v --ALPHA no - -tx -l -a z   with argument removal, normal pass *)
+Example C08_ex_run :
+  let strs := [112] :: render ex_sps in
+  match parse (mkenv ex_tbl strs (length strs) false true 0 false) (init_st (length strs) ex_sto 0) with
+  | Ok (Done false s') =>
+      st_sto s' = mkstore [18446744073709551614; 0] [-5; 7] [None; Some [118]] [Some [Some [45; 97]; Some [122]]; None]
+                          [(2%nat, Some [120])] /\
+      argv_words strs (st_argv s') = [[112]; [119]; [45]] /\ st_bad s' = 0
+  | _ => False
+  end.
+Proof. vm_compute. repeat split. Qed.
+
+(* a side condition at work: "--alpha" followed by the word "no" is read as --alpha=no *)
+Example C08_ex_side_condition :
+  sps_ok ex_tbl [LongFlag [97; 108; 112; 104; 97]; Word [110; 111]] = false /\
+  let strs := [112] :: render [LongFlag [97; 108; 112; 104; 97]; Word [110; 111]] in
+  match parse (mkenv ex_tbl strs (length strs) false true 0 false) (init_st (length strs) ex_sto 0) with
+  | Ok (Done false s') => argv_words strs (st_argv s') = [[112]] /\ sb (st_sto s') = [18446744073709551614; 0]
+  | _ => False
+  end.
+Proof. vm_compute. repeat split. Qed.
+
+(* arbitrary bytes: unknown options, a missing value, "--", "--=", a lone '-' - at worst counted *)
+Example C08_ex_bad :
+  let strs := [[112]; [45; 120]; [45; 45]; [45; 45; 61]; [45]; [45; 45; 105; 110; 116]] in
+  match parse (mkenv ex_tbl strs (length strs) false true 255 false) (init_st (length strs) ex_sto 250) with
+  | Ok (Done false s') => st_bad s' = 254 /\ st_nbad s' = 4%nat /\ st_sto s' = ex_sto
+  | _ => False
+  end.
+Proof. vm_compute. repeat split. Qed.
